@@ -67,7 +67,8 @@ theorem eraseDups_of_nodup {α} [BEq α] [LawfulBEq α] : ∀ {l : List α}, l.N
 /-! ### snapshots of the model -/
 
 def entOf (e : Sess) : MapEnt :=
-  { name := sname e.id, owner := ownerOf e.owner, refs := e.refs, timer := e.timer != .nil, closing := e.closing }
+  { name := sname e.id, owner := ownerOf e.owner, refs := e.refs, timer := e.timer != .nil, closing := e.closing,
+    busy := e.busy + e.initBusy }
 
 theorem showMap_eq (s : State) : showMap s = (s.tbl.filter (·.inMap)).map entOf := rfl
 
